@@ -278,7 +278,24 @@ type Average struct {
 
 type Asterisk struct{}
 
+// Parse parses one statement. The statement may be closed by semicolons;
+// anything else behind it is a syntax error, so that a clause the grammar
+// does not know is refused instead of being dropped together with everything
+// that follows it.
 func (p *Parser) Parse() (interface{}, error) {
+	stmt, err := p.parseStatement()
+	if err != nil {
+		return stmt, err
+	}
+	for p.match(SEMICOLON) {
+	}
+	if p.Cur().Type != EOF {
+		return nil, syntaxErr(p.Cur())
+	}
+	return stmt, nil
+}
+
+func (p *Parser) parseStatement() (interface{}, error) {
 	cur := p.Cur()
 	p.Advance()
 	switch cur.Type {
